@@ -64,8 +64,10 @@ class RecEst(BaseEstimator, ClassifierMixin):
              proba -> predict_proba only (no decision_function)
              order -> 4 * X[:, col] + w * (id mod 2), w a function of the ORDER of the training rows  """
 
-    def __init__(self, kind="feat", col=1, token=0, offset=0):
-        self.kind, self.col, self.token, self.offset = kind, col, token, offset
+    def __init__(self, kind="feat", col=1, token=0, offset=0, leak=None):
+        # leak: {row id: +1 / -1} known to the estimator through a side channel (only the detection-power instrument of C04 uses it:
+        # a memoriser that has "seen" the held-out rows as well, which is what leaky training sets would give it)
+        self.kind, self.col, self.token, self.offset, self.leak = kind, col, token, offset, leak
 
     def fit(self, X, y):
         self.classes_ = np.array([0, 1])
@@ -96,6 +98,8 @@ class RecEst(BaseEstimator, ClassifierMixin):
             return 4.0 * X[:, self.col].astype(float) + getattr(self, "w_", 0) * (np.round(X[:, 0]).astype(int) % 2)
         if self.kind == "memo":
             seen = getattr(self, "seen_", {})
+            if self.__dict__.get("leak"):
+                seen = {**{int(k): float(v) for k, v in self.leak.items()}, **seen}
             return X[:, self.col].astype(float) + np.array([1000.0 * seen.get(int(round(i)), 0.0) for i in X[:, 0]])
         raise ValueError(self.kind)
 
@@ -201,7 +205,8 @@ def run_brew(case, workdir=None, keep=False):
         dsets = build_inputs(case, wd, hkeys)
         thr = case.get("thr", [1, 1])
         tthr = case.get("train_thr", [1, 1])
-        est = RecEst(kind=case.get("est", "feat"), col=case.get("col", 1), token=tok, offset=int(case.get("est_offset", 0)))
+        est = RecEst(kind=case.get("est", "feat"), col=case.get("col", 1), token=tok, offset=int(case.get("est_offset", 0)),
+                     leak=case.get("leak_labels"))
         model = RModel(est, scaler="as-is", train_fdr=tthr[0] / tthr[1], max_iter=case.get("max_iter", 1),
                        direction=case.get("direction", "f1"), override=case.get("override", False),
                        shuffle=case.get("shuffle", True), token=tok)
@@ -215,13 +220,32 @@ def run_brew(case, workdir=None, keep=False):
         # (enforce_checks=True) is recorded even when that constructor rejects it (no targets / no decoys)
         import sys
         BM = sys.modules["mokapot.brew"]
-        orig_create = BM._create_psms
+        # preferred: a recording subclass of the PUBLIC class LinearPsmDataset as bound in mokapot.brew (survives renamed / inlined
+        # private helpers); otherwise the private helper _create_psms; otherwise no interposition (fewer events, never a failure)
+        restore = []
+        orig_cls = BM.__dict__.get("LinearPsmDataset")
+        if isinstance(orig_cls, type):
+            class RecLinear(orig_cls):
+                def __init__(self, *a, **kw):
+                    data = kw.get("psms", a[0] if a else None)
+                    if kw.get("enforce_checks", True) and data is not None:
+                        try:
+                            rec.emit("train_set", [int(str(v)[1:]) for v in data["SpecId"].tolist()])
+                        except Exception:
+                            pass
+                    super().__init__(*a, **kw)
+            RecLinear.__name__, RecLinear.__qualname__ = orig_cls.__name__, orig_cls.__qualname__
+            BM.LinearPsmDataset = RecLinear
+            restore.append(("LinearPsmDataset", orig_cls))
+        elif callable(BM.__dict__.get("_create_psms")):
+            orig_create = BM._create_psms
 
-        def rec_create(psms, data, enforce_checks=True):
-            if enforce_checks:
-                rec.emit("train_set", [int(str(v)[1:]) for v in data["SpecId"].tolist()])
-            return orig_create(psms, data, enforce_checks=enforce_checks)
-        BM._create_psms = rec_create
+            def rec_create(psms, data, enforce_checks=True):
+                if enforce_checks:
+                    rec.emit("train_set", [int(str(v)[1:]) for v in data["SpecId"].tolist()])
+                return orig_create(psms, data, enforce_checks=enforce_checks)
+            BM._create_psms = rec_create
+            restore.append(("_create_psms", orig_create))
         try:
             with mk.patched(CHUNK_SIZE_ROWS_PREDICTION=case.get("pred_chunk", 700000),
                             CHUNK_SIZE_READ_ALL_DATA=case.get("read_chunk", 200000)):
@@ -253,7 +277,8 @@ def run_brew(case, workdir=None, keep=False):
             raised = "%s: %s" % (type(e).__name__, str(e)[:160])
             rtype = type(e).__name__
         finally:
-            BM._create_psms = orig_create
+            for nm, obj in restore:
+                setattr(BM, nm, obj)
         hnum = {}
         rows = [{"id": r["id"], "file": c + 1, "spec": r["spec"], "tgt": bool(r["tgt"]),
                  "hgrp": hnum.setdefault((c, hkeys[r["id"]]), len(hnum) + 1)}
